@@ -52,7 +52,8 @@ def handle : Handler := fun op inp _impl => do
       (if rolling && (x.map (·.controlled)).getD false then ["exposure-judged"] else []) ++
       (if routed then ["canary-route-live"] else []) ++ (if w.net.stableSel.isSome then ["stable-pinned"] else []) ++
       (if terminal then ["terminal-judged"] else []) ++
-      (match jopt inp "lateRelease" with | some (.bool true) => ["guard:releaseWhileFinalising"] | _ => []) ++ (if !rolling && !routed && !terminal then ["trivial"] else []) }
+      (match jopt inp "lateRelease" with | some (.bool true) => ["guard:releaseWhileFinalising"] | _ => []) ++
+      (match jopt inp "earlyExit" with | some (.bool true) => ["guard:exitBeforeBatchRelease"] | _ => []) ++ (if !rolling && !routed && !terminal then ["trivial"] else []) }
   | "final" =>
     let base ← stateOfJson (← jget inp "baseline")
     let run ← stateOfJson (← jget inp "run")
@@ -80,7 +81,8 @@ def handle : Handler := fun op inp _impl => do
       (if disturbed then [("C06.terminates", done), ("C06.final_clean", clean)] else []) ++
       (if same then [("C06.same_final_state", sameFinal base run)] else [])
     return { holds := holds, tags := [if same then "run:disturbed-or-baseline" else "run:user-event", if done then "done" else "notdone",
-      s!"plan:{((← fStr inp "plan").splitOn "@").head!}"] ++ (if lateRelease then ["guard:releaseWhileFinalising", "late-release"] else []) }
+      s!"plan:{((← fStr inp "plan").splitOn "@").head!}"] ++ (if lateRelease then ["guard:releaseWhileFinalising", "late-release"] else []) ++
+      (match jopt inp "earlyExit" with | some (.bool true) => ["guard:exitBeforeBatchRelease"] | _ => []) }
   | _ => .error s!"cluster: unknown op {op}"
 
 end RV.Drv.Cluster
